@@ -1544,7 +1544,11 @@ def check_paths(ctx, case, log, names):
     if not exp or _state.get('stale'):
         return
     ok = {exp[n] for n in names if n in exp}
-    bad = [e[2] for e in log if e[0] == 'O' and e[2].split('?')[0] not in ok]
+    # a request for the (correctly addressed) object of ANOTHER case is a straggler of that case on the shared loopback
+    # endpoint (a retry that was still in flight when its case was judged), not a mis-addressed request of this one:
+    # only objects that no case may ask for are reported (one such straggler was seen once in ~25 000 thorough cases)
+    legit = set(exp.values())
+    bad = [e[2] for e in log if e[0] == 'O' and e[2].split('?')[0] not in ok and e[2].split('?')[0] not in legit]
     if bad:
         ctx.disagree('kind=%s;what=another_object_requested' % case['kind'], case, dict(requested=bad[:3]),
                      dict(expected=sorted(ok)), 'a request asked for %s, expected one of %s' % (bad[0], sorted(ok)),
